@@ -716,8 +716,251 @@ def _post_cases(q, base):
     return cases
 
 
+# =====================================================================================================================
+# pipeline (P): hand-given optimisation results -> ROMC.estimate_regions -> posterior
+# =====================================================================================================================
+def sim_shift(*args, batch_size=1, random_state=None):
+    """theta + standard normal noise, one column per parameter (used by the pipeline / e2e toy models)."""
+    th = np.column_stack([np.asarray(a, dtype=float).reshape(batch_size) for a in args])
+    return th + random_state.normal(0, 1, size=th.shape)
+
+
+def _romc_model(prior_name, observed):
+    import elfi
+    m = elfi.ElfiModel(name='c19m_' + prior_name)
+    if prior_name == 'U1':
+        ps = [elfi.Prior('uniform', -2, 4, model=m, name='t1')]
+    elif prior_name == 'N1':
+        ps = [elfi.Prior('norm', 0.5, 1.5, model=m, name='t1')]
+    elif prior_name == 'UN2':
+        ps = [elfi.Prior('uniform', -2, 4, model=m, name='t1'), elfi.Prior('norm', 0, 1, model=m, name='t2')]
+    elif prior_name == 'H2':
+        t1 = elfi.Prior('norm', 0, 1, model=m, name='t1')
+        ps = [t1, elfi.Prior('norm', t1, 1, model=m, name='t2')]
+    else:
+        raise ValueError(prior_name)
+    y = elfi.Simulator(sim_shift, *ps, model=m, name='y', observed=np.array([observed], dtype=float))
+    elfi.Distance('euclidean', y, model=m, name='d')
+    return m
+
+
+class _RecObjective:
+    """f(theta) = f0 + (theta-c)^T A (theta-c); records the probes made while its region is being built."""
+
+    def __init__(self, spec):
+        self.c = np.array(spec['c'], dtype=float)
+        self.f0 = float(spec['f0'])
+        self.A = np.array(spec['A'], dtype=float)
+        self.recording = False
+        self.probes = []
+
+    def value(self, th):
+        v = np.asarray(th, dtype=float) - self.c
+        return float(self.f0 + v @ self.A @ v)
+
+    def __call__(self, th):
+        val = self.value(th)
+        if self.recording:
+            self.probes.append((np.array(th, dtype=float), val))
+        return val
+
+
+def _pipe_setup(case):
+    import elfi
+    from elfi.methods.inference.romc import OptimisationProblem, RomcOptimisationResult
+
+    class Problem(OptimisationProblem):
+        # the documented extension point (custom_optim_class); only marks the build phase for the probe recorder
+        def build_region(self, **kw):
+            self.objective.recording = True
+            try:
+                return super().build_region(**kw)
+            finally:
+                self.objective.recording = False
+
+    dim = ref.PRIOR_DIM[case['prior']]
+    m = _romc_model(case['prior'], [0.0] * dim)
+    romc = elfi.ROMC(m, bounds=[(-3.0, 3.0)] * dim, discrepancy_name='d', custom_optim_class=Problem)
+    objs, probs = [], []
+    n = len(case['problems'])
+    for ind, spec in enumerate(case['problems']):
+        f = _RecObjective(spec)
+        objs.append(f)
+        pr = Problem(ind, ind + 1, list(romc.model_prior.parameter_names), 'd', f, dim, romc.model_prior, n, romc.bounds)
+        pr.state['attempted'] = True
+        if spec.get('solved', True):
+            pr.state['solved'] = True
+            pr.result = RomcOptimisationResult(f.c.copy(), f.value(f.c), 2.0 * f.A)
+        probs.append(pr)
+    romc.optim_problems = probs
+    romc.inference_args['N1'] = n
+    romc.inference_state['_has_solved_problems'] = True
+    romc.inference_state['attempted'] = [True] * n
+    romc.inference_state['solved'] = [bool(s.get('solved', True)) for s in case['problems']]
+    return romc, objs, dim
+
+
+NEAR = 1e-6     # local surrogates are regressions: points whose true distance is this close to the cut-off are free
+
+
+@guarded('C19')
+def run_pipe(case):
+    romc, objs, dim = _pipe_setup(case)
+    K, eta, rep_lim = case['K'], float(case['eta']), case['rep_lim']
+    eps_f, eps_r, eps_c = float(case['eps_filter']), float(case['eps_region']), float(case['eps_cutoff'])
+    fit = bool(case['fit_models'])
+    np.random.seed(case['np_seed'])
+    with _quiet():
+        romc.estimate_regions(eps_filter=eps_f, use_surrogate=False,
+                              region_args={'K': K, 'eta': eta, 'rep_lim': rep_lim}, fit_models=fit,
+                              fit_models_args={'nof_samples': case.get('nof_samples', 20)},
+                              eps_region=eps_r, eps_cutoff=eps_c)
+    post = romc.posterior
+    acc_ref = [bool(s.get('solved', True)) and objs[i].value(objs[i].c) < eps_f for i, s in enumerate(case['problems'])]
+    acc_idx = [i for i, a in enumerate(acc_ref) if a]
+    if [bool(a) for a in romc.inference_state['accepted']] != acc_ref:
+        return bad('C19:pipeline:accepted-not-solved-and-below-eps-filter',
+                   {'accepted': list(romc.inference_state['accepted']), 'expected': acc_ref})
+    if len(post.regions) != len(acc_idx) or len(post.funcs) != len(acc_idx):
+        return bad('C19:pipeline:posterior-regions-not-one-per-accepted-problem',
+                   {'n_regions': len(post.regions), 'accepted': acc_ref})
+    if bool(post.surrogate_used) != fit:
+        return bad('C19:pipeline:surrogate-flag', {'surrogate_used': bool(post.surrogate_used), 'fit_models': fit})
+    g = eta / 2 ** (K + 1) / SUB
+    frames = []
+    # (1) every region against the probes of its own objective
+    for k, i in enumerate(acc_idx):
+        b = post.regions[k]
+        R, c, lim = np.array(b.rotation, dtype=float), np.array(b.center, dtype=float), np.array(b.limits, dtype=float)
+        f = objs[i]
+        obs = {'n_boxes': 1, 'rotation': R, 'center': c, 'limits': lim,
+               'probes': [(tuple(np.round((th - f.c) / g, 3).tolist()), 0 if val < eps_r else 1) for th, val in f.probes]}
+        v = _build_check(case, obs, g, eta, f.c)
+        if v:
+            return bad('C19:pipeline:region:' + v[0], dict(v[1], problem=i, **_build_describe(obs, g)))
+        eff = [tuple(map(float, r_)) for r_ in lim]
+        frames.append((R, c, eff, 1e-9 * ref.box_scale(c, eff)))
+    n = 0
+    # (2) unnormalised density on the grid
+    pts = _grid(case)
+    if pts:
+        got = np.asarray(romc.eval_unnorm_posterior(np.array(pts, dtype=float)), dtype=float)
+        if got.shape != (len(pts),):
+            return bad('C19:pipeline:pdf:shape', {'shape': list(got.shape)})
+    vals = []
+    for kk, th in enumerate(pts):
+        n += 1
+        pr = ref.prior_ref(case['prior'], th)
+        lo = hi = 0
+        ds = []
+        for k, i in enumerate(acc_idx):
+            d = objs[i].value(th)
+            ds.append(d)
+            R, c, eff, margin = frames[k]
+            if not fit:
+                inc = (1, 1) if d <= eps_c else (0, 0)
+            else:
+                mem = ref.membership(R, c, eff, th, margin)
+                if mem < 0 or d > eps_c + NEAR:
+                    inc = (0, 0)
+                elif mem > 0 and d < eps_c - NEAR:
+                    inc = (1, 1)
+                else:
+                    inc = (0, 1)
+            lo += inc[0]
+            hi += inc[1]
+        gk = float(got[kk])
+        vals.append(gk)
+        if not any(_close(gk, pr * cnt, 1e-9 if fit else RTOL) for cnt in range(lo, hi + 1)):
+            return bad('C19:pipeline:pdf:not-prior-times-count-of-accepted-problems',
+                       {'theta': th, 'got': gk, 'prior_density': pr, 'admissible_counts': [lo, hi],
+                        'distances_of_accepted': ds, 'accepted': acc_ref, 'eps_cutoff': eps_c, 'local_surrogates': fit})
+    # (3) samples and weights through ROMC.sample
+    nz = 0
+    n2 = case['n2']
+    if acc_idx and n2:
+        np.random.seed(case['np_seed'] + 1)
+        with _quiet():
+            romc.sample(n2, seed=case['np_seed'])
+        th_all = np.asarray(romc.samples, dtype=float)
+        w_all = np.asarray(romc.weights, dtype=float)
+        d_all = np.asarray(romc.distances, dtype=float)
+        if th_all.shape != (len(acc_idx), n2, dim) or w_all.shape != (len(acc_idx), n2) or d_all.size != len(acc_idx) * n2:
+            return bad('C19:pipeline:sample:shape', {'samples': list(th_all.shape), 'weights': list(w_all.shape)})
+        d_all = d_all.reshape(len(acc_idx), n2)
+        for k, i in enumerate(acc_idx):
+            R, c, eff, margin = frames[k]
+            vol = ref.box_volume(eff)
+            for j in range(n2):
+                n += 1
+                th = th_all[k, j]
+                sub = {'problem': i, 'draw': j, 'theta': th.tolist(), 'eps_cutoff': eps_c, 'local_surrogates': fit}
+                if ref.membership(R, c, eff, th, margin) < 0:
+                    return bad('C19:pipeline:sample:not-in-its-region', sub)
+                d = objs[i].value(th)
+                pr = ref.prior_ref(case['prior'], th)
+                gd, gw = float(d_all[k, j]), float(w_all[k, j])
+                sub.update(distance=d, got_distance=gd, got_weight=gw, prior_density=pr, region_volume=vol)
+                if (gd != d) if not fit else (abs(gd - d) > NEAR / 10):
+                    if fit:
+                        return ok(outcome='local-surrogate-inaccurate', trivial=True, surrogate_inaccurate=1)
+                    return bad('C19:pipeline:sample:distance-not-objective-at-sample', sub)
+                if fit and abs(d - eps_c) <= NEAR:
+                    cands = (0.0, pr * vol)
+                else:
+                    cands = ((pr * vol) if d < eps_c else 0.0,)
+                if not any(_close(gw, e, 1e-9 if fit else RTOL) for e in cands):
+                    return bad('C19:pipeline:sample:weight-not-indicator-times-prior-over-region-density',
+                               dict(sub, expected=list(cands)))
+                nz += gw > 0
+        res = romc.result
+        if not np.array_equal(np.asarray(res.weights), w_all.flatten()) or \
+                any(not np.array_equal(np.asarray(res.outputs[p_]), th_all[:, :, a].flatten())
+                    for a, p_ in enumerate(romc.model_prior.parameter_names)):
+            return bad('C19:pipeline:result-object-weights-not-aligned-with-samples', {})
+    r = ok(outcome=digest((np.round(np.array(vals), 9), [f_[2] for f_ in frames])), accepted=len(acc_idx),
+           rejected=len(acc_ref) - len(acc_idx), pipeline_positive_weights=nz)
+    r.update(evals=n, distinct=n)
+    return r
+
+
+def _pipe_cases(q, base):
+    I1 = [[1.0]]
+    P1 = [  # 1-D problems: centre, minimum value, curvature
+        {'c': [0.5], 'f0': 0.0, 'A': I1}, {'c': [-1.0], 'f0': 0.25, 'A': [[2.0]]}, {'c': [1.0], 'f0': 0.875, 'A': I1},
+        {'c': [0.0], 'f0': 0.5, 'A': [[0.25]]}, {'c': [1.5], 'f0': 0.0, 'A': [[4.0]], 'solved': False},
+        {'c': [-0.25], 'f0': 2.0, 'A': I1},
+    ]
+    P2 = [
+        {'c': [0.0, 0.0], 'f0': 0.0, 'A': [[1.0, 0.0], [0.0, 0.25]]},
+        {'c': [0.5, -0.5], 'f0': 0.25, 'A': [[1.0, 0.5], [0.5, 1.0]]},
+        {'c': [-1.0, 1.0], 'f0': 0.875, 'A': [[2.0, 0.0], [0.0, 2.0]]},
+        {'c': [1.0, 0.0], 'f0': 0.0, 'A': [[0.5, -0.25], [-0.25, 1.0]], 'solved': False},
+    ]
+    ax1 = [[-3.0 + 0.25 * i for i in range(25)]]
+    ax2 = [[-2.5 + 0.5 * i for i in range(11)], [-2.0 + 0.5 * i for i in range(9)]]
+    cases = []
+    for prior, P, axes in (('U1', P1, ax1), ('N1', P1, ax1), ('UN2', P2, ax2), ('H2', P2, ax2)):
+        if q and prior in ('N1', 'UN2'):
+            continue
+        sels = []
+        for r in (1, 2, 3):
+            sels += list(itertools.combinations(range(len(P)), r))
+        if q:
+            sels = [s_ for s_ in sels if len(s_) != 2] if len(P) > 4 else sels
+        for sel in sels:
+            for (K, eta, rep_lim) in ((3, 0.5, 5), (1, 1.0, 0)) if q else ((3, 0.5, 5), (1, 1.0, 0), (2, 0.25, 2), (5, 1.0, 3)):
+                for (ef, er, ec) in ((0.75, 1.0, 0.75), (1.0, 1.0, 0.5)) if q else ((0.75, 1.0, 0.75), (1.0, 1.0, 0.5), (3.0, 2.5, 1.0)):
+                    for fit in (False, True):
+                        cases.append({'kind': 'pipe', 'prior': prior, 'problems': [P[i] for i in sel], 'K': K, 'eta': eta,
+                                      'rep_lim': rep_lim, 'eps_filter': ef, 'eps_region': er, 'eps_cutoff': ec,
+                                      'fit_models': fit, 'np_seed': base + 11, 'n2': 3, 'axes': axes})
+    return cases
+
+
 RUNNERS = {'bbox': run_bbox, 'ls_tree': run_ls_tree, 'ls_one': run_ls_one, 'build_tree': run_build_tree,
-           'build_one': run_build_one, 'post': run_post}
+           'build_one': run_build_one, 'post': run_post,
+           'pipe': run_pipe}
 
 
 def replay(case):
@@ -762,4 +1005,7 @@ def run(ctx):
     if want('posterior'):
         cases = _post_cases(q, base)
         ctx.run_cases(run_post, cases, 'posterior', sample_every=max(1, len(cases) // 4))
+    if want('pipeline'):
+        cases = _pipe_cases(q, base)
+        ctx.run_cases(run_pipe, cases, 'pipeline', sample_every=max(1, len(cases) // 4))
     ctx.rule = 'todo'
